@@ -277,6 +277,22 @@ claim("C17",
       "TLA+ file/sub-grid/cursor model checked exhaustively by TLC, TLC-planned node windows, synthetic binary files exercised on the real code incl. NaN-poisoning, TLC trace validation",
       "DESIGN.md section 4 C17")
 
+claim("C16",
+      "LocalFrame.tla holds the exact mathematics in fixed point (rotation matrix at stations with rational sine and cosine incl. "
+      "poles and cardinal meridians, the Post_X function of every public call, ellipse / relative-variance / bearing laws, the "
+      "Student-t coverage probability for even AND odd dof through the arctangent series with a pi bracket); Local.tla is the state "
+      "machine, model-checked exhaustively on the 3-4-5 lattice with every action taken. TLC-generated behaviours and ~100 (quick) / "
+      "3000 (thorough) stations are executed on the real functions and Trace_Local (TLC) decides: exact matrix entries on the "
+      "lattice, orthonormal / det +1 / east x north = up / up = ellipsoid normal anywhere, enu2xyz / xyz2enu exact and inverse and "
+      "length-preserving, covariance rotation exact with symmetry / trace / minors / determinant preserved and round trip, 3x1 "
+      "column = rotated diagonal, error ellipse a >= b >= 0, a^2+b^2 = trace, a^2 b^2 = det, orientation = bearing of the major "
+      "axis, relative error = ellipse of var1+var2-cov12-cov12^T, and the complete coverage-factor table (-5..200, clamping, "
+      "TypeError, all 120 quantiles bracketed to 5 decimals).",
+      "Exact at rational-trig stations; at float stations polynomial laws + the llh2xyz normal (1e-7, instrument judged on the "
+      "lattice first); 1e-12 relative tolerances; orientation mod 180 through alpha's sin/cos of the returned angle. Trusted: TLC, BigFix.",
+      "TLA+ state machine with exact fixed-point oracle, exhaustive TLC model check, TLC-generated behaviours replayed into the code, TLC trace validation",
+      "DESIGN.md section 4 C16")
+
 NOT_YET = "check not built yet in this session (work in progress; see DESIGN.md section 8 for build order)"
 
 
